@@ -24,7 +24,11 @@ SOURCES = {
     "failing-error-directive": "  nop\n.error \"stop\"\n",
     "failing-after-eeprom": ".eseg\n .db 1\n.cseg\n  undefined_macro\n",
     "messages": ".message \"hello\"\n  nop\n",
+    "with-include": ".include \"part.inc\"\n  ret\n",
 }
+# files that stand next to the NAMED source, and the text the library is asked about instead (the include pasted)
+BESIDE = {"with-include": {"part.inc": "  ldi r17, 2\n"}}
+FLAT = {"with-include": "  ldi r17, 2\n  ret\n"}
 
 
 def build_bin():
@@ -53,7 +57,7 @@ def snapshot(root):
 def run(res):
     vh, exe = P.base(res, PROP)
     binary, env = build_bin()
-    lib = {k: progrun.parse_obs(r[1]) for k, r in zip(SOURCES, progrun.run_texts(vh, exe, list(SOURCES.values())))}
+    lib = {k: progrun.parse_obs(r[1]) for k, r in zip(SOURCES, progrun.run_texts(vh, exe, [FLAT.get(k, v) for k, v in SOURCES.items()]))}
     work = os.path.join(C.BUILD, "work", "c18-%d" % os.getpid())
     shutil.rmtree(work, ignore_errors=True)
     cases = []
@@ -70,9 +74,19 @@ def run(res):
         stem, ext = [("prog.v1", ".asm"), ("prog", ".asm"), ("a.b.c", ".s"), ("noext", ""), (".hidden", ".asm"), ("with space", ".asm"),
                      ("UPPER.Case", ".ASM"), ("prog.asm", ".asm")][n % 8]
         src = os.path.join(d, "src", stem + ext)
-        open(src, "w").write(text)
+        # how the source is named: absolute path, path relative to the working directory, or a symbolic link (the outputs and the
+        # included files belong next to the NAME that was given, wherever the link points)
+        how = ["absolute", "relative", "symlink", "absolute", "symlink-relative"][n % 5]
+        if how.startswith("symlink"):
+            os.makedirs(os.path.join(d, "real"))
+            open(os.path.join(d, "real", "target_name.asm"), "w").write(text)
+            os.symlink(os.path.join("..", "real", "target_name.asm") if n % 2 else os.path.join(d, "real", "target_name.asm"), src)
+        else:
+            open(src, "w").write(text)
+        for fn, content in BESIDE.get(sname, {}).items():
+            open(os.path.join(d, "src", fn), "w").write(content)
         open(os.path.join(d, "src", "bystander.hex"), "w").write("keep me\n")
-        args = ["-s", src]
+        args = ["-s", src if how in ("absolute", "symlink") else os.path.relpath(src, d)]
         target = {"writable": "out/%s", "missing-dir": "nodir/%s", "is-a-directory": "out/%s", "overwrite": "out/%s"}[loc]
         paths = {"code": os.path.join(d, "src", stem + ".hex"), "eeprom": os.path.join(d, "src", stem + ".eep.hex")}
         if use_o:
@@ -94,7 +108,7 @@ def run(res):
         before = snapshot(d)
         p = subprocess.run([binary] + args, cwd=d, env=env, stdout=subprocess.PIPE, stderr=subprocess.STDOUT, text=True, timeout=60)
         after = snapshot(d)
-        cases.append(dict(source=sname, args=[a.replace(d, "<dir>") for a in args], location=loc, exit=p.returncode, stdout=p.stdout[-400:],
+        cases.append(dict(source=sname, args=[a.replace(d, "<dir>") for a in args], location=loc + "/" + how, exit=p.returncode, stdout=p.stdout[-400:],
                           created={k: v for k, v in after.items() if k not in before or (loc == "overwrite" and after[k] != before[k])},
                           changed=[k for k in before if after.get(k) != before[k] and not (loc == "overwrite" and k in (os.path.relpath(paths["code"], d), os.path.relpath(paths["eeprom"], d)))],
                           paths={k: os.path.relpath(v, d) for k, v in paths.items()}, redirected=dict(code=use_o, eeprom=use_e), dir=d))
@@ -111,7 +125,7 @@ def run(res):
             for k in ("code", "eeprom"):
                 img = bytes.fromhex(l[k])
                 if img:
-                    if c["location"] in ("missing-dir", "is-a-directory") and c["redirected"][k]:
+                    if c["location"].split("/")[0] in ("missing-dir", "is-a-directory") and c["redirected"][k]:
                         unwritable = True
                     else:
                         want[c["paths"][k]] = img
